@@ -2,7 +2,7 @@
 import re
 from ..facts import Program, loc
 from ..run import Check, AnalysisBroken
-from ..rules import r4_own, r9_sibling, ledger, r5_grow, r6_wspace, extent, r11_kinds
+from ..rules import r4_own, r9_sibling, ledger, r5_grow, r6_wspace, extent, r11_kinds, r4_path, misc
 
 DUNITS = None   # R9: whole SRC + FORTRAN
 
@@ -70,6 +70,10 @@ def run(tier):
         if nd < 6:
             raise AnalysisBroken('C19: only %d Destroy_* routines found (floor 6)' % nd)
         extent.elem_size_rule(chk, 'C19.elem', prog, None, cfgname, floor=90)
+        chk.clause('C19.histo', 'relaxed supernode width stays within the statistics histogram')
+        misc.relax_width_rule(chk, 'C19.histo', prog, cfgname)
+        if r4_path.run(chk, 'R4.path', prog, cfgname) < 40:
+            raise AnalysisBroken('C19: fewer than 40 releases through an access path found')
         r11_kinds.run(chk, 'C19.kinds', prog, cfgname, floor=1900)
         if cfgname == 'tested':
             r9_sibling.run(chk, prog, 'R9', None, cfgname)
